@@ -115,7 +115,7 @@ impl Scenario for LcdBatches {
         false
     }
     fn quick_runs(&self, _f: &str) -> u64 {
-        6400
+        12800
     }
     fn chunk(&self) -> u64 {
         25
